@@ -155,4 +155,5 @@ def run(ctx):
   lint.falsy_numeric_default(ctx, common.mods(ctx, ["ttconv.srt.reader", "ttconv.utils"]))
   from ..selfcheck import falsy_default_fixture_matches
   ctx.check(falsy_default_fixture_matches(), "LINT-i", "fixture|a number defaulted with `or` is detected", "ttverif/fixtures/falsy_default.py", "the rule still matches its positive fixture", "LINT-i no longer matches its positive fixture (rule broken)")
+  common.check_item_handlers(ctx, ["ttconv.srt.reader", "ttconv.utils"])
   common.check_history_independence(ctx, ["ttconv.srt.reader", "ttconv.utils"])
